@@ -46,6 +46,24 @@ pub fn exec_case(slice: &str, lines: &[String]) -> Vec<String> {
 }
 
 pub fn gen_case(slice: &str, rng: &mut Rng, thorough: bool, index: u64) -> Vec<String> {
+    let ops = gen_case0(slice, rng, thorough, index);
+    if slice.starts_with("wasm") && slice != "wasm-bech-mix" {
+        // byte-exact view of the bank and wasm namespaces: after about a third of the typed dumps and at the end of every case
+        let mut out = Vec::with_capacity(ops.len() + 4);
+        for l in ops {
+            let is_dump = l == "dump";
+            out.push(l);
+            if is_dump && rng.chance(1, 3) {
+                out.push("rawdump".into());
+            }
+        }
+        out.push("rawdump".into());
+        return out;
+    }
+    ops
+}
+
+fn gen_case0(slice: &str, rng: &mut Rng, thorough: bool, index: u64) -> Vec<String> {
     match slice {
         "overlay-exh" => kv::gen_overlay_exh(index),
         "overlay" => kv::gen_overlay(rng, thorough),
